@@ -9,7 +9,7 @@ var nSites int // number of instrumented yield sites of this build (0 = plain)
 var taskKinds = []struct {
 	kind string
 	w    int
-}{{"parse", 18}, {"parse-render", 10}, {"stream", 14}, {"render", 26}, {"append", 8}, {"format", 14}, {"walk", 10}}
+}{{"parse", 18}, {"parse-render", 10}, {"stream", 14}, {"render", 26}, {"append", 8}, {"format", 14}, {"walk", 10}, {"inspect", 8}}
 
 func genSched(r *Rng, phase string) []*Scenario {
 	nd := r.Range(1, 4)
@@ -51,6 +51,7 @@ func genSched(r *Rng, phase string) []*Scenario {
 				rd.Fault = FaultScn{Kind: "error", At: r.Intn(len(d) + 1), Err: r.Pick(faultErrKinds)}
 			}
 			rd.Ops, rd.Family = genSchedule(r, d, faultLimit(&Scenario{Doc: d, Reader: rd}), nil)
+			rd.Scribble = genScribble(r)
 			t.Reader = rd
 		case "render", "append":
 			rs := genRenderScn(r)
